@@ -89,3 +89,51 @@ def named_const(e, suffix):
 
 def describe(e):
     return show(e)
+
+
+def const_is(prog, e, name):
+    """e is the named constant `name`, or a literal with the same value (a range pattern `NAME..` or a
+    refactoring may spell the value either way; the value is what the property is about)."""
+    if named_const(e, name.rsplit('::', 1)[-1]):
+        return True
+    c = const_of(e)
+    if not c or c.get('int') is None:
+        return False
+    try:
+        return int(c['int']) == prog.const_int(name)
+    except Exception:
+        return False
+
+
+def commuted(e, op):
+    """operand orders of a commutative binop node: [(a, b), (b, a)]; [] if e is not that op"""
+    e = e.strip()
+    if e.kind == 'binop' and e.op == op:
+        return [(e.a.strip(), e.b.strip()), (e.b.strip(), e.a.strip())]
+    return []
+
+
+def closure_of(prog, e):
+    """The Fn of a closure aggregate expression (through refs/copies), or None."""
+    e = e.strip()
+    if e.kind != 'agg' or e.info.get('ak') != 'closure':
+        return None
+    n = e.info.get('name')
+    f = prog.fns.get(n)
+    if f is None:
+        c = prog.by_name.get(n) or []
+        f = c[0] if len(c) == 1 else None
+    return f
+
+
+def position_idiom(prog, e):
+    """e == <iter>.position(<closure>): (iter expr, closure Fn, the closure's returned expression) or None.
+    `position` returns the index of the first element for which the closure is true, None at exhaustion --
+    the iterator-chain spelling of `for (i, x) in iter.enumerate() { if p(x) { return Some(i) } } None`."""
+    e = e.strip()
+    if e.kind != 'call' or not (e.op.endswith('Iterator>::position') or e.op.endswith('Iterator::position')) or len(e.args) != 2:
+        return None
+    cl = closure_of(prog, e.args[1])
+    if cl is None:
+        return None
+    return e.args[0], cl, cl.local_expr(0, []).strip()
